@@ -83,6 +83,15 @@ def make_diffbase_storage(cfg):
     raise ValueError(kind)
 
 
+class ReIterable:
+    """Re-iterable, but neither Sized nor a sequence (one of the documented shapes of backoff/delay settings)."""
+    def __init__(self, items):
+        self.items = list(items)
+
+    def __iter__(self):
+        return iter(list(self.items))
+
+
 def make_settings(spec):
     settings = kopf.OperatorSettings()
     settings.process.ultimate_exiting_timeout = None
@@ -99,6 +108,10 @@ def make_settings(spec):
             obj = getattr(obj, p)
         if not hasattr(obj, parts[-1]):
             raise AttributeError(dotted)
+        if isinstance(value, dict) and set(value) == {'reiter'}:
+            value = ReIterable(value['reiter'])
+        elif isinstance(value, dict) and set(value) == {'tuple'}:
+            value = tuple(value['tuple'])
         setattr(obj, parts[-1], value)
     return settings
 
